@@ -17,8 +17,19 @@ for f in sorted(glob.glob(os.path.join(ROOT, "lean/RaftVerif/Props/C*.lean"))):
         n, also = m0.group(1), (m0.group(2) or "").split()
         short = n.split(".")[-1]
         full = n
-        if "." not in n or not (n.startswith("Raft") or n.startswith("RaftVerif")):
-            if opens:
+        if not (n.startswith("Raft.") or n.startswith("RaftVerif.")):
+            # unqualified: inside a namespace block -> that namespace; after the `end`s -> the last `open`
+            stack = []
+            for ln in src[:m0.start()].splitlines():
+                mm = re.match(r"^namespace\s+([\w.]+)", ln)
+                if mm:
+                    stack.append(mm.group(1))
+                mm = re.match(r"^end\s+([\w.]+)", ln)
+                if mm and stack and stack[-1] == mm.group(1):
+                    stack.pop()
+            if stack:
+                full = ".".join(stack) + "." + n
+            elif opens:
                 full = opens[-1] + "." + n
         pat = r"theorem\s+(?:[\w.]+\.)?" + re.escape(short) + r"(?![\w'?!])"
         m = re.search(r"/--((?:(?!-/).)*)-/\s*(?:@\[[^\]]*\]\s*)?(?:private\s+)?" + pat, src, re.S)
